@@ -79,6 +79,7 @@ fn main() {
     };
     let mut seed = env_seed;
     let mut jobs = jobs_default;
+    let mut only: Option<String> = None;
     let mut i = 4;
     while i < args.len() {
         match args[i].as_str() {
@@ -88,6 +89,11 @@ fn main() {
             }
             "--jobs" => {
                 jobs = args[i + 1].parse().expect("jobs");
+                i += 2;
+            }
+            "--only" => {
+                only = Some(args[i + 1].clone());
+                jobs = 1;
                 i += 2;
             }
             _ => i += 1,
@@ -102,7 +108,7 @@ fn main() {
         seed,
         jobs,
         verif_root,
-        only_label: None,
+        only_label: only,
     };
     std::process::exit(runner::run(mon.as_ref(), &cfg));
 }
